@@ -185,6 +185,49 @@ func VerifH_C11_GetByCommitment() {
 	nd.Assert(b.index == (skipRows+abs/w)*(2*w)+abs%w, "start-index-of-its-first-share")
 }
 
+// The proof returned for a commitment consists of the row proofs of exactly the
+// rows the (first) blob with that commitment occupies - not of rows an earlier
+// blob of the namespace ended in - so that Included accepts the honest proof.
+//
+//verif:opts nopanic nodeadlock cover=onerow,multirow,afterspanning
+func VerifH_C11_ProofRows() {
+	s, _, ref, w, _, c0, _ := verifBlock()
+	rows := s.shareGetter.(*verifGetter).rows
+	n := 1 + nd.Choice(3, "wantShares")
+	seqLen := nd.U32("wantSeqLen")
+	want := make([]byte, 9)
+	want[0] = 0xc0
+	binary.BigEndian.PutUint32(want[1:], uint32(n))
+	binary.BigEndian.PutUint32(want[5:], seqLen)
+	first := -1
+	for i := len(ref) - 1; i >= 0; i-- {
+		if ref[i].n == n && ref[i].seqLen == seqLen {
+			first = i
+		}
+	}
+	if first < 0 {
+		nd.End() // absent commitments: VerifH_C11_GetByCommitment
+	}
+	proof, err := s.GetProof(context.Background(), 5, verifNs, want)
+	nd.Assert(err == nil && proof != nil, "present-commitment-has-a-proof")
+	r0 := (c0 + ref[first].pos) / w
+	r1 := (c0 + ref[first].pos + ref[first].n - 1) / w
+	if r0 == r1 {
+		nd.Cover("onerow")
+	} else {
+		nd.Cover("multirow")
+	}
+	if first > 0 && (c0+ref[first-1].pos)/w < r0 && (c0+ref[first-1].pos+ref[first-1].n-1)/w == r0 {
+		nd.Cover("afterspanning") // the previous blob spilled into the row this one starts in
+	}
+	nd.Assert(len(*proof) == r1-r0+1, "one-row-proof-per-row-the-blob-occupies")
+	for i, p := range *proof {
+		if r0+i < len(rows) {
+			nd.Assert(p == rows[r0+i].Proof, "row-proofs-are-those-of-the-blobs-own-rows")
+		}
+	}
+}
+
 // verifBlock builds the block layout and the service over it.
 func verifBlock() (*Service, *header.ExtendedHeader, []verifItem, int, int, int, int) {
 	maxShares := 4
